@@ -125,13 +125,12 @@ theorem splitQuoted_meta4 (kw nm R : Str) (hkw : Pass isAsciiSpace kw) (hnm : Pa
 
 -- metric names on metadata lines ------------------------------------------------------------------------------------------
 
-/-- a family name as written on a HELP/TYPE line: accepted by `_validate_metric_name`, and not an F2 name -/
-def metricNameOK (legacy : Bool) (n : Str) : Bool :=
-  isOk (validateMetricName legacy n) && !(isValidLegacyMetricName n && n.getLast? == some '\n')
+/-- a family name as written on a HELP/TYPE line: accepted by `_validate_metric_name` -/
+def metricNameOK (legacy : Bool) (n : Str) : Bool := isOk (validateMetricName legacy n)
 
 theorem metricNameOK_validate {legacy : Bool} {n : Str} (h : metricNameOK legacy n = true) :
     validateMetricName legacy n = .ok () := by
-  unfold metricNameOK at h; simp only [Bool.and_eq_true] at h; exact isOk_unit h.1
+  exact isOk_unit h
 
 theorem asciiSpace_safe : NameSafe isAsciiSpace :=
   ⟨by decide, fun c hc => by
@@ -144,15 +143,10 @@ theorem asciiSpace_safe : NameSafe isAsciiSpace :=
 theorem metricTok_cases {legacy : Bool} {n : Str} (h : metricNameOK legacy n = true) :
     (escapeMetricName n = n ∧ n ≠ [] ∧ (∀ c ∈ n, isLegacyChar c = true) ∧ isValidLegacyMetricName n = true) ∨
     (escapeMetricName n = qname n ∧ isValidLegacyMetricName n = false) := by
-  unfold metricNameOK at h
-  simp only [Bool.and_eq_true, Bool.not_eq_true', Bool.and_eq_false_iff] at h
   unfold escapeMetricName
   by_cases hv : isValidLegacyMetricName n = true
   · left
-    have hn : n.getLast? ≠ some '\n' := by
-      rcases h.2 with h2 | h2
-      · rw [hv] at h2; exact absurd h2 (by decide)
-      · simpa using h2
+    have hn : n.getLast? ≠ some '\n' := legacyMetric_no_newline hv
     have := legacyName_chars hv hn
     simp only [hv, ↓reduceIte, true_and]
     exact ⟨this.1, this.2, trivial⟩
@@ -347,5 +341,398 @@ theorem stepLine_type (legacy : Bool) (pyInt : Str → Option Int) (pyFloat : St
   have h1 : (kwType == "HELP".toList) = false := by decide
   have h2 : (kwType == "TYPE".toList) = true := by decide
   simp only [h1, h2, Bool.false_eq_true, ↓reduceIte]
+
+-- the recovered help text ------------------------------------------------------------------------------------------------
+
+theorem escHelpChar_last (c : Char) (hc : (isPySpace c && c != '\n') = false) :
+    ∃ b, (escHelpChar c).getLast? = some b ∧ isPySpace b = false := by
+  unfold escHelpChar
+  by_cases h1 : c = '\\'
+  · subst h1; exact ⟨'\\', rfl, by decide⟩
+  · by_cases h2 : c = '\n'
+    · subst h2; exact ⟨'n', rfl, by decide⟩
+    · simp only [h1, h2, ↓reduceIte]
+      refine ⟨c, rfl, ?_⟩
+      have : (c != '\n') = true := by simpa using h2
+      simpa [this] using hc
+
+theorem escapeHelp_of_spaces (j : Str) (h : j.all (fun c => isPySpace c && c != '\n') = true) : escapeHelp j = j := by
+  induction j with
+  | nil => exact escapeHelp_nil
+  | cons c cs ih =>
+    simp only [List.all_cons, Bool.and_eq_true] at h
+    rw [escapeHelp_cons, ih h.2]
+    have h1 : c ≠ '\\' := by intro e; subst e; exact absurd h.1.1 (by decide)
+    have h2 : c ≠ '\n' := by simpa using h.1.2
+    simp [escHelpChar, h1, h2]
+
+/-- **the parser recovers the help text up to trailing blanks**: `doc = helpDoc doc ++ j` with `j` all blanks -/
+theorem helpDoc_spec (doc : Str) : ∃ j, doc = helpDoc doc ++ j ∧ j.all isPySpace = true := by
+  obtain ⟨j, hj, hp⟩ := rstripSet_prefix (fun c => isPySpace c && c != '\n') doc
+  have hjs : j.all isPySpace = true := by
+    simp only [List.all_eq_true, Bool.and_eq_true] at hp ⊢
+    exact fun c hc => (hp c hc).1
+  refine ⟨j, ?_, hjs⟩
+  suffices h : helpDoc doc = rstripSet (fun c => isPySpace c && c != '\n') doc by rw [h]; exact hj
+  generalize hd : rstripSet (fun c => isPySpace c && c != '\n') doc = d' at hj
+  have hlast := rstripSet_getLast (fun c => isPySpace c && c != '\n') doc
+  rw [hd] at hlast
+  unfold helpDoc
+  rw [hj, escapeHelp_append, escapeHelp_of_spaces j hp]
+  unfold rstrip
+  rw [rstripSet_append, (rstripSet_eq_nil_iff isPySpace j).mpr hjs]
+  simp only [↓reduceIte]
+  have hr : rstripSet isPySpace (escapeHelp d') = escapeHelp d' := by
+    cases hl : d'.getLast? with
+    | none => rw [List.getLast?_eq_none_iff.mp hl, escapeHelp_nil]; rfl
+    | some c =>
+      obtain ⟨ys, hys⟩ := List.getLast?_eq_some_iff.mp hl
+      obtain ⟨b, hb, hbs⟩ := escHelpChar_last c (hlast c hl)
+      rw [hys, escapeHelp_append, escapeHelp_cons, escapeHelp_nil, List.append_nil]
+      apply rstrip_of_last (b := b) _ hbs
+      rw [List.getLast?_append, hb]; rfl
+  rw [hr]
+  exact helpUnescape_helpEscape d'
+
+-- sample line content ---------------------------------------------------------------------------------------------------------
+
+/-- the part of a sample line before the value -/
+def sampleHead (s : Sample) : Str :=
+  if isValidLegacyMetricName s.name then
+    match sortByKey s.labels with
+    | [] => s.name
+    | kv :: r => s.name ++ '{' :: (labelItem kv ++ tailStr r ++ ['}'])
+  else '{' :: (qname s.name ++ tailStr (sortByKey s.labels) ++ ['}'])
+
+/-- a sample line without its line feed -/
+def sampleContent (s : Sample) : Str := sampleHead s ++ ' ' :: valTs (Utils.floatToGoString s.value) (millisOf s)
+
+theorem sampleLine_eq (s : Sample) : sampleLine s = sampleContent s ++ ['\n'] := by
+  rw [sampleLine_shape]; unfold sampleContent sampleHead
+  by_cases hv : isValidLegacyMetricName s.name = true
+  · cases hs : sortByKey s.labels <;> simp [hv]
+  · simp [hv]
+
+theorem sampleHead_head {legacy : Bool} {s : Sample} (h : SampleOK legacy s) :
+    ∃ a, (sampleHead s).head? = some a ∧ isPySpace a = false ∧ a ≠ '#' := by
+  unfold sampleHead
+  by_cases hv : isValidLegacyMetricName s.name = true
+  · obtain ⟨hne, hc⟩ := legacyName_chars hv (legacyMetric_no_newline hv)
+    cases hn : s.name with
+    | nil => exact absurd hn hne
+    | cons a t =>
+      have hl := hc a (by rw [hn]; simp)
+      refine ⟨a, ?_, legacyChar_not_space hl, legacyChar_ne hl (by decide)⟩
+      rw [← hn]; simp only [hv, ↓reduceIte]
+      cases sortByKey s.labels <;> simp [hn]
+  · simp only [hv, Bool.false_eq_true, ↓reduceIte]
+    exact ⟨'{', rfl, by decide, by decide⟩
+
+theorem strip_sampleContent {legacy : Bool} {s : Sample} (h : SampleOK legacy s) :
+    strip (sampleLine s) = sampleContent s ∧ strip (sampleContent s) = sampleContent s := by
+  obtain ⟨a, ha, has, _⟩ := sampleHead_head h
+  have h1 : strip (sampleLine s) = sampleContent s := by
+    rw [sampleLine_eq]; exact strip_line ha has h.tok _
+  refine ⟨h1, ?_⟩
+  obtain ⟨b, hb, hbs⟩ := valTs_last h.tok (millisOf s)
+  have hhead : (sampleContent s).head? = some a := by
+    unfold sampleContent
+    cases hh : sampleHead s with
+    | nil => rw [hh] at ha; simp at ha
+    | cons x xs => rw [hh] at ha; simpa using ha
+  apply strip_eq_self hhead has (b := b) _ hbs
+  unfold sampleContent
+  rw [List.getLast?_append, List.getLast?_cons, hb]; rfl
+
+
+-- the family state machine on rendered lines -----------------------------------------------------------------------------------
+
+/-- what the parser is expected to return for an exposed sample -/
+def expSample (pyFloat : Str → Option Nat) (s : Sample) : PSample :=
+  ⟨s.name, sortByKey s.labels, .flt ((pyFloat (Utils.floatToGoString s.value)).getD 0), (millisOf s).map (fun m => ⟨.int m⟩)⟩
+
+/-- an exposed sample for which the document-level round trip is stated: `SampleOK`, the number laws, and a name
+`Metric()` accepts (needed when the parser yields the sample as a family of its own) -/
+structure SampleGood (legacy : Bool) (pyInt : Str → Option Int) (pyFloat : Str → Option Nat) (s : Sample) : Prop where
+  ok : SampleOK legacy s
+  notInt : pyInt (Utils.floatToGoString s.value) = none
+  isFloat : (pyFloat (Utils.floatToGoString s.value)).isSome = true
+  millis : ∀ m, millisOf s = some m → pyInt (intStr m) = some m ∧ intDivOverflows m = false
+  nameValid : validateMetricName legacy s.name = .ok ()
+
+/-- `build_metric(name, doc, typ, samples)` succeeds for every doc and sample list and leaves the samples alone -/
+def HeadOK (legacy : Bool) (name typ : Str) : Prop :=
+  ∃ name' typ', ∀ doc samples, buildMetric legacy name doc typ samples = .ok ⟨name', doc, typ', samples⟩
+
+/-- state invariant: an anonymous state holds nothing; a named state can be flushed -/
+def StInv (legacy : Bool) (st : St) : Prop :=
+  (st.name = [] ∧ st.samples = [] ∧ st.allowed = []) ∨ (st.name ≠ [] ∧ HeadOK legacy st.name st.typ)
+
+theorem stInv_init (legacy : Bool) : StInv legacy St.init := Or.inl ⟨rfl, rfl, rfl⟩
+
+theorem flush_of_inv {legacy : Bool} {st : St} (h : StInv legacy st) :
+    ∃ out, flush legacy st = .ok out ∧ flatten out = st.samples := by
+  rcases h with ⟨h1, h2, _⟩ | ⟨h1, n', t', h2⟩
+  · refine ⟨[], ?_, by rw [h2]; rfl⟩
+    unfold flush; simp [h1]; rfl
+  · refine ⟨[⟨n', st.doc, t', st.samples⟩], ?_, by simp [flatten]⟩
+    unfold flush
+    have : st.name.isEmpty = false := by cases hn : st.name <;> simp_all
+    simp only [this, Bool.false_eq_true, ↓reduceIte, h2, bind, Except.bind]; rfl
+
+theorem headOK_untyped {legacy : Bool} {n : Str} (h : validateMetricName legacy n = .ok ()) : HeadOK legacy n "untyped".toList := by
+  refine ⟨n, "unknown".toList, fun doc samples => ?_⟩
+  unfold buildMetric
+  have h1 : ("untyped".toList == "counter".toList) = false := by decide
+  simp only [h1, Bool.false_eq_true, ↓reduceIte, h, bind, Except.bind]
+  rfl
+
+/-- `stepLine` on a rendered sample line -/
+theorem stepLine_sample (legacy : Bool) (pyInt : Str → Option Int) (pyFloat : Str → Option Nat) (st : St) {s : Sample}
+    (h : SampleGood legacy pyInt pyFloat s) :
+    stepLine legacy pyInt pyFloat st (sampleContent s) =
+      (if !st.allowed.contains s.name then do
+          let out ← flush legacy st
+          let single ← buildMetric legacy s.name [] "untyped".toList [expSample pyFloat s]
+          pure (St.init, out ++ [single])
+        else pure ({ st with samples := st.samples ++ [expSample pyFloat s] }, [])) := by
+  obtain ⟨a, ha, _, hne⟩ := sampleHead_head h.ok
+  have hstrip := strip_sampleContent h.ok
+  have hhead : (sampleContent s).head? = some a := by
+    unfold sampleContent
+    cases hh : sampleHead s with
+    | nil => rw [hh] at ha; simp at ha
+    | cons x xs => rw [hh] at ha; simpa using ha
+  obtain ⟨b, hb⟩ := Option.isSome_iff_exists.mp h.isFloat
+  have hps : parseSample legacy pyInt pyFloat (sampleContent s) = .ok (expSample pyFloat s) := by
+    have := sample_line_roundtrip legacy pyInt pyFloat s b h.ok h.notInt hb h.millis
+    rw [hstrip.1] at this
+    rw [this]; unfold expSample; rw [hb]; rfl
+  unfold stepLine
+  have h1 : ((sampleContent s).head? == some '#') = false := by
+    rw [hhead]; simpa using hne
+  have h2 : (sampleContent s).isEmpty = false := by
+    cases hc : sampleContent s with
+    | nil => rw [hc] at hhead; simp at hhead
+    | cons _ _ => rfl
+  simp only [hstrip.2, h1, h2, Bool.false_eq_true, ↓reduceIte, hps, bind, Except.bind]
+  rfl
+
+/-- a rendered line of the document -/
+inductive DocLine
+  | help (n doc : Str)
+  | type (n typ : Str)
+  | sample (s : Sample)
+
+def DocLine.content : DocLine → Str
+  | .help n doc => helpContent n doc
+  | .type n typ => typeContent n typ
+  | .sample s => sampleContent s
+
+def DocLine.samples : DocLine → List Sample
+  | .sample s => [s]
+  | _ => []
+
+/-- what each rendered line must satisfy -/
+def LineOK (legacy : Bool) (pyInt : Str → Option Int) (pyFloat : Str → Option Nat) : DocLine → Prop
+  | .help n _ => metricNameOK legacy n = true
+  | .type n typ => metricNameOK legacy n = true ∧ TypWord typ ∧ HeadOK legacy n typ
+  | .sample s => SampleGood legacy pyInt pyFloat s
+
+theorem metricNameOK_ne_nil {legacy : Bool} {n : Str} (h : metricNameOK legacy n = true) : n ≠ [] := by
+  intro e; subst e
+  have := metricNameOK_validate h
+  simp [validateMetricName] at this
+
+/-- **the state machine on rendered lines**: it never raises, keeps the invariant, and the samples yielded so far plus
+those pending are exactly the exposed samples, in order -/
+theorem run_docLines (legacy : Bool) (pyInt : Str → Option Int) (pyFloat : Str → Option Nat) :
+    ∀ (ls : List DocLine) (st : St) (acc : List PFamily), (∀ l ∈ ls, LineOK legacy pyInt pyFloat l) → StInv legacy st →
+    ∃ st' acc', runLines legacy pyInt pyFloat (ls.map DocLine.content) st acc = .ok (st', acc') ∧ StInv legacy st' ∧
+      flatten acc' ++ st'.samples = flatten acc ++ st.samples ++ (ls.flatMap DocLine.samples).map (expSample pyFloat) := by
+  intro ls
+  induction ls with
+  | nil => intro st acc _ hinv; exact ⟨st, acc, rfl, hinv, by simp⟩
+  | cons l ls ih =>
+    intro st acc hok hinv
+    have hl := hok l (by simp)
+    have hrest : ∀ l' ∈ ls, LineOK legacy pyInt pyFloat l' := fun l' h' => hok l' (by simp [h'])
+    obtain ⟨out0, hflush, hflat⟩ := flush_of_inv hinv
+    -- one step
+    have step : ∃ st1 out, stepLine legacy pyInt pyFloat st l.content = .ok (st1, out) ∧ StInv legacy st1 ∧
+        flatten out ++ st1.samples = st.samples ++ (l.samples).map (expSample pyFloat) := by
+      cases l with
+      | help n doc =>
+        have hn : metricNameOK legacy n = true := hl
+        simp only [DocLine.content, DocLine.samples, List.map_nil, List.append_nil]
+        rw [stepLine_help legacy pyInt pyFloat st hn doc]
+        by_cases hc : (n != st.name) = true
+        · simp only [hc, ↓reduceIte, hflush, bind, Except.bind, pure, Except.pure]
+          refine ⟨_, _, rfl, Or.inr ⟨metricNameOK_ne_nil hn, headOK_untyped (metricNameOK_validate hn)⟩, ?_⟩
+          simp [hflat]
+        · simp only [hc, Bool.false_eq_true, ↓reduceIte, bind, Except.bind, pure, Except.pure]
+          refine ⟨_, _, rfl, ?_, by simp [flatten]⟩
+          have hname : n = st.name := by simpa using hc
+          rcases hinv with ⟨h1, _⟩ | ⟨h1, h2⟩
+          · exact absurd (hname ▸ h1) (metricNameOK_ne_nil hn)
+          · exact Or.inr ⟨h1, h2⟩
+      | type n typ =>
+        obtain ⟨hn, htw, hhead⟩ : metricNameOK legacy n = true ∧ TypWord typ ∧ HeadOK legacy n typ := hl
+        simp only [DocLine.content, DocLine.samples, List.map_nil, List.append_nil]
+        rw [stepLine_type legacy pyInt pyFloat st hn htw]
+        by_cases hc : (n != st.name) = true
+        · simp only [hc, ↓reduceIte, hflush, bind, Except.bind, pure, Except.pure]
+          refine ⟨_, _, rfl, Or.inr ⟨metricNameOK_ne_nil hn, hhead⟩, ?_⟩
+          simp [hflat]
+        · simp only [hc, Bool.false_eq_true, ↓reduceIte, bind, Except.bind, pure, Except.pure]
+          have hname : n = st.name := by simpa using hc
+          refine ⟨_, _, rfl, Or.inr ⟨hname ▸ metricNameOK_ne_nil hn, hname ▸ hhead⟩, by simp [flatten]⟩
+      | sample s =>
+        have hs : SampleGood legacy pyInt pyFloat s := hl
+        simp only [DocLine.content, DocLine.samples, List.map_cons, List.map_nil]
+        rw [stepLine_sample legacy pyInt pyFloat st hs]
+        by_cases hc : (!st.allowed.contains s.name) = true
+        · obtain ⟨n', t', hb⟩ := headOK_untyped hs.nameValid
+          simp only [hc, ↓reduceIte, hflush, bind, Except.bind, hb, pure, Except.pure]
+          refine ⟨_, _, rfl, stInv_init legacy, ?_⟩
+          simp [flatten, St.init, hflat] 
+          simpa [flatten] using hflat
+        · simp only [hc, Bool.false_eq_true, ↓reduceIte, pure, Except.pure]
+          refine ⟨_, _, rfl, ?_, by simp [flatten]⟩
+          rcases hinv with ⟨_, _, h3⟩ | ⟨h1, h2⟩
+          · rw [h3] at hc; simp at hc
+          · exact Or.inr ⟨h1, h2⟩
+    obtain ⟨st1, out, hstep, hinv1, hflat1⟩ := step
+    obtain ⟨st', acc', hrun, hinv', hfl⟩ := ih st1 (acc ++ out) hrest hinv1
+    refine ⟨st', acc', ?_, hinv', ?_⟩
+    · rw [List.map_cons, runLines]
+      simp only [hstep, bind, Except.bind]
+      exact hrun
+    · rw [hfl]
+      simp only [flatten, List.flatMap_append, List.flatMap_cons, List.map_append, List.append_assoc] at hflat1 ⊢
+      rw [← List.append_assoc (List.flatMap _ out), hflat1]
+      simp
+
+
+-- line splitting ----------------------------------------------------------------------------------------------------------------
+
+theorem splitLines_append {c : Str} (rest : Str) (h : '\n' ∉ c) : splitLines (c ++ '\n' :: rest) = c :: splitLines rest := by
+  induction c with
+  | nil => simp [splitLines]
+  | cons x xs ih =>
+    have hx : x ≠ '\n' := fun e => h (by simp [e])
+    have hxs : '\n' ∉ xs := fun e => h (by simp [e])
+    rw [List.cons_append, splitLines]
+    simp only [hx, ↓reduceIte, ih hxs]
+
+theorem splitLines_flatten (cs : List Str) (h : ∀ c ∈ cs, '\n' ∉ c) :
+    splitLines ((cs.map (· ++ ['\n'])).flatten) = cs := by
+  induction cs with
+  | nil => rfl
+  | cons c cs ih =>
+    simp only [List.map_cons, List.flatten_cons, List.append_assoc, List.singleton_append]
+    rw [splitLines_append _ (h c (by simp)), ih (fun c' hc' => h c' (by simp [hc']))]
+
+theorem not_mem_append {c : Char} {a b : Str} (ha : c ∉ a) (hb : c ∉ b) : c ∉ a ++ b := by
+  intro h; rcases List.mem_append.mp h with h | h
+  · exact ha h
+  · exact hb h
+
+theorem not_mem_cons {c d : Char} {a : Str} (hd : c ≠ d) (ha : c ∉ a) : c ∉ d :: a := by
+  intro h; rcases List.mem_cons.mp h with h | h
+  · exact hd h
+  · exact ha h
+
+theorem newline_not_mem_legacy {n : Str} (hc : ∀ c ∈ n, isLegacyChar c = true) : '\n' ∉ n :=
+  fun hm => legacyChar_ne (hc _ hm) (by decide) rfl
+
+theorem newline_not_mem_numTok {t : Str} (h : NumTok t) : '\n' ∉ t := numTok_not_mem h (d := '\n') (by decide)
+
+theorem newline_not_mem_quoted (v : Str) : '\n' ∉ '"' :: (escape v ++ ['"']) :=
+  not_mem_cons (by decide) (not_mem_append (newline_not_mem_escape v) (by simp))
+
+theorem newline_not_mem_item {legacy : Bool} {kv : Str × Str} (h : labelNameOK legacy kv.1 = true) : '\n' ∉ labelItem kv := by
+  rw [labelItem_eq]
+  apply not_mem_append
+  · rcases nameTok_cases h with ⟨e, _, hc, _⟩ | e
+    · rw [e]; exact newline_not_mem_legacy hc
+    · rw [e]; exact newline_not_mem_quoted _
+  · exact not_mem_cons (by decide) (newline_not_mem_quoted _)
+
+theorem newline_not_mem_tail {legacy : Bool} (l : List (Str × Str)) (h : ∀ kv ∈ l, labelNameOK legacy kv.1 = true) :
+    '\n' ∉ tailStr l := by
+  induction l with
+  | nil => simp [tailStr]
+  | cons kv r ih =>
+    rw [tailStr_cons]
+    exact not_mem_cons (by decide) (not_mem_append (newline_not_mem_item (h kv (by simp))) (ih (fun x hx => h x (by simp [hx]))))
+
+theorem newline_not_mem_valTs {tok : Str} (h : NumTok tok) (ms : Option Int) : '\n' ∉ valTs tok ms := by
+  unfold valTs
+  apply not_mem_append (newline_not_mem_numTok h)
+  cases ms with
+  | none => simp
+  | some m => exact not_mem_cons (by decide) (newline_not_mem_numTok (intStr_numTok m))
+
+theorem newline_not_mem_sampleContent {legacy : Bool} {s : Sample} (h : SampleOK legacy s) : '\n' ∉ sampleContent s := by
+  have hp := sortByKey_perm s.labels
+  have hok : ∀ x ∈ sortByKey s.labels, labelNameOK legacy x.1 = true := fun x hx => h.labels.1 x (hp.mem_iff.mp hx)
+  unfold sampleContent
+  apply not_mem_append _ (not_mem_cons (by decide) (newline_not_mem_valTs h.tok _))
+  unfold sampleHead
+  by_cases hv : isValidLegacyMetricName s.name = true
+  · obtain ⟨_, hc⟩ := legacyName_chars hv (legacyMetric_no_newline hv)
+    simp only [hv, ↓reduceIte]
+    cases hs : sortByKey s.labels with
+    | nil => exact newline_not_mem_legacy hc
+    | cons kv r =>
+      rw [hs] at hok
+      simp only []
+      exact not_mem_append (newline_not_mem_legacy hc) (not_mem_cons (by decide) (not_mem_append
+        (not_mem_append (newline_not_mem_item (hok kv (by simp))) (newline_not_mem_tail r (fun x hx => hok x (by simp [hx]))))
+        (by simp)))
+  · simp only [hv, Bool.false_eq_true, ↓reduceIte]
+    exact not_mem_cons (by decide) (not_mem_append (not_mem_append (newline_not_mem_quoted _) (newline_not_mem_tail _ hok)) (by simp))
+
+theorem newline_not_mem_content {legacy : Bool} {pyInt : Str → Option Int} {pyFloat : Str → Option Nat} {l : DocLine}
+    (h : LineOK legacy pyInt pyFloat l) : '\n' ∉ l.content := by
+  cases l with
+  | help n doc =>
+    have hn : metricNameOK legacy n = true := h
+    unfold DocLine.content helpContent
+    exact not_mem_cons (by decide) (not_mem_cons (by decide) (not_mem_append (by decide) (not_mem_cons (by decide)
+      (not_mem_append (metricTok_no_newline hn) (not_mem_cons (by decide) (newline_not_mem_escapeHelp doc))))))
+  | type n typ =>
+    obtain ⟨hn, htw, _⟩ : metricNameOK legacy n = true ∧ TypWord typ ∧ HeadOK legacy n typ := h
+    unfold DocLine.content typeContent
+    exact not_mem_cons (by decide) (not_mem_cons (by decide) (not_mem_append (by decide) (not_mem_cons (by decide)
+      (not_mem_append (metricTok_no_newline hn) (not_mem_cons (by decide) (newline_not_mem_legacy htw.2))))))
+  | sample s =>
+    have hs : SampleGood legacy pyInt pyFloat s := h
+    exact newline_not_mem_sampleContent hs.ok
+
+/-- the rendered text of a list of lines -/
+def renderLines (ls : List DocLine) : Str := ((ls.map DocLine.content).map (· ++ ['\n'])).flatten
+
+/-- **a rendered document parses to families whose samples are exactly the exposed samples, in order** -/
+theorem textParse_docLines (legacy : Bool) (pyInt : Str → Option Int) (pyFloat : Str → Option Nat) (ls : List DocLine)
+    (hok : ∀ l ∈ ls, LineOK legacy pyInt pyFloat l) :
+    ∃ fams, textParse legacy pyInt pyFloat (renderLines ls) = .ok fams ∧
+      flatten fams = (ls.flatMap DocLine.samples).map (expSample pyFloat) := by
+  have hsplit : splitLines (renderLines ls) = ls.map DocLine.content := by
+    unfold renderLines
+    apply splitLines_flatten
+    intro c hc
+    obtain ⟨l, hl, e⟩ := List.mem_map.mp hc
+    rw [← e]; exact newline_not_mem_content (hok l hl)
+  obtain ⟨st', acc', hrun, hinv, hfl⟩ := run_docLines legacy pyInt pyFloat ls St.init [] hok (stInv_init legacy)
+  obtain ⟨out, hflush, hflat⟩ := flush_of_inv hinv
+  refine ⟨acc' ++ out, ?_, ?_⟩
+  · unfold textParse
+    rw [hsplit]
+    simp only [hrun, hflush, bind, Except.bind]; rfl
+  · have : flatten (acc' ++ out) = flatten acc' ++ flatten out := by simp [flatten]
+    rw [this, hflat, hfl]
+    simp [flatten, St.init]
 
 end PromVerif.Lemmas.TextParse
